@@ -41,6 +41,10 @@ func runC19(r *Run, stratum string) *Violation {
 	cfg.ClusterAddrs = clusterAddrs
 	cfg.DBM = DBMap{TargetDb: -1}
 	stable := hasWord(stratum, "stable")
+	if txn == 0 && !stable && !hasWord(stratum, "crossnode") && os.Getenv("SIM_C19_NOFOLLOW") == "1" { // exploration switch, not part of the registered check (DESIGN.md 7.4 by-products)
+		cfg.NoRedirectFollow = true // (what transactional cluster replay switches on by itself)
+		simrt.Probe("c19_redirects_not_followed_by_the_client")
+	}
 	// crossnode: the stream (standalone source) holds ONE multi-key command whose keys live on two target nodes. The
 	// cluster client cannot route it (ErrCrossSlots); allowed outcomes: it is executed (per node) or the replay reports
 	// an error — never a silent loss, i.e. the stored position never covers it while no node has executed it.
@@ -233,6 +237,12 @@ func runC19(r *Run, stratum string) *Violation {
 	// key. The tool reports TRYAGAIN and restarts; a tree that sends the command again by itself is not covered by
 	// either listed finding, whatever the later answers were: the order rules speak plainly on that key
 	retriedInPlace := map[string]int{}
+	// refusal: an answer that ends the attempt - the tool reports it and restarts - as opposed to a redirect the cluster
+	// client follows by itself. TRYAGAIN always is one; MOVED and ASK are when the operator has switched the client's
+	// following of redirects off. A refused command may only come back through a replay, in order.
+	refusal := func(kind string) bool {
+		return kind == "TRYAGAIN" || (cfg.NoRedirectFollow && (kind == "MOVED" || kind == "ASK"))
+	}
 	scan := func() {
 		for ; scanned < len(l.topo.Log); scanned++ {
 			e := l.topo.Log[scanned]
@@ -278,10 +288,10 @@ func runC19(r *Run, stratum string) *Violation {
 				}
 			}
 			if kind := firstKind[i]; p <= lastPos[k] && !stable && redirectedInc[i] == incarnation {
-				if kind == "MOVED" || kind == "ASK" {
-					followedBehind[k] = incarnation
-				} else if kind == "TRYAGAIN" {
+				if refusal(kind) {
 					retriedInPlace[k] = incarnation
+				} else if kind == "MOVED" || kind == "ASK" {
+					followedBehind[k] = incarnation
 				}
 			}
 			if p > lastPos[k]+1 {
@@ -296,18 +306,21 @@ func runC19(r *Run, stratum string) *Violation {
 				if redirectedInc[mi] == incarnation {
 					kind = firstKind[mi]
 				}
-				if !stable && kind != "TRYAGAIN" && retriedInPlace[k] != incarnation && (red || followedBehind[k] == incarnation || (cfg.Pipeline && migratedSlots[simredis.HashSlot([]byte(k))])) {
+				if !stable && !refusal(kind) && retriedInPlace[k] != incarnation && (red || followedBehind[k] == incarnation || (cfg.Pipeline && migratedSlots[simredis.HashSlot([]byte(k))])) {
 					sig = "cluster target during slot migration: a redirected or stale-routed command was overtaken by a later, already pipelined command of the same key"
 				}
 				msg := fmt.Sprintf("key %q: [%s] executed (node %d) while its predecessor [%s] has not been executed since the last rewind (redirect seen for it: %q)", k, fmtCmd(e.Name, e.Args), e.Node, fmtCmd(missing.Name, missing.Args), redirected[mi])
-				if !stable && kind == "TRYAGAIN" {
+				if !stable && refusal(kind) {
 					// the predecessor was answered TRYAGAIN (its keys are split between the two nodes of a migration): the
 					// commands pipelined behind it to the same node execute, the error is reported afterwards. That skip is
 					// the second listed finding; it is held back until the end of the run, because what the tool does with
 					// the refused command afterwards is judged too: it may only come back through a replay in order
 					if deferred == nil {
-						deferred = &Violation{Property: "C19", Rule: "C19.skip_or_invert", Msg: msg,
-							Sig: "cluster target during slot migration: a command answered TRYAGAIN was skipped by later, already pipelined commands of its key before the reported restart"}
+						dsig := "cluster target during slot migration: a command answered TRYAGAIN was skipped by later, already pipelined commands of its key before the reported restart"
+						if kind != "TRYAGAIN" {
+							dsig = "cluster target during slot migration, redirects not followed by the client: a command answered MOVED/ASK was skipped by later, already pipelined commands of its key before the reported restart"
+						}
+						deferred = &Violation{Property: "C19", Rule: "C19.skip_or_invert", Msg: msg, Sig: dsig}
 						r.Logf("DEFERRED %s", msg)
 					}
 				} else {
@@ -649,7 +662,7 @@ func runC19(r *Run, stratum string) *Violation {
 				if redirectedInc[li] == incarnation {
 					kind = firstKind[li]
 				}
-				if !stable && retriedInPlace[k] != incarnation && (kind == "MOVED" || kind == "ASK" || followedBehind[k] == incarnation) {
+				if !stable && retriedInPlace[k] != incarnation && !refusal(kind) && (kind == "MOVED" || kind == "ASK" || followedBehind[k] == incarnation) {
 					// the first listed finding seen from its other end: the redirected command was followed in place, behind
 					// later commands of its key (which ran first after a restart, where the order rule starts afresh)
 					sig = "cluster target during slot migration: a redirected or stale-routed command was overtaken by a later, already pipelined command of the same key"
